@@ -19,7 +19,8 @@ RULE = ("seeded random manifests with 1-8 batches of sizes from {0,1,2,3,7,100} 
 REQUIRED = ["prep_checked:dominion", "prep_checked:hart", "prep_rejections_checked", "lookup_checked:dominion",
             "lookup_checked:hart", "lookups_with_empty_batches", "lookups_with_phantom_batch", "cvrs_checked:dominion",
             "cvrs_checked:hart", "sample_numbers_mapped", "phantom_cards_sampled",
-            "manifest_row_labels_not_0_to_n", "manifest_row_labels_not_0_to_n_and_no_phantom_batch"]
+            "manifest_row_labels_not_0_to_n", "manifest_row_labels_not_0_to_n_and_no_phantom_batch",
+            "second_lookup_in_same_manifest"]
 ASSUMPTIONS = ["unique (tabulator, batch) labels per manifest", "Dominion lookup is 1-based, Hart lookup 0-based, as each "
                "vendor module documents and its test pins", "phantom CVR ids use the documented prefix 'phantom-1-'"]
 N_CASES = {"quick": 8000, "thorough": 64000}
@@ -176,53 +177,64 @@ def run_case(case, rec):
     else:
         sample = rng.sample(valid, min(len(valid), rng.randint(1, 40)))
     rng.shuffle(sample)
-    ok, res = rec.guard(f"c17.call:{vendor}.sample_from_manifest", V.sample_from_manifest, man, sample)
-    if not ok:
+    def lookup(sample):
+        ok, res = rec.guard(f"c17.call:{vendor}.sample_from_manifest", V.sample_from_manifest, man, sample)
+        if not ok:
+            return False
+        cards, sample_order, mvr_ph = res
+        rec.count(f"lookup_checked:{vendor}")
+        if 0 in sizes:
+            rec.count("lookups_with_empty_batches")
+        if bound > total:
+            rec.count("lookups_with_phantom_batch")
+        want = {}
+        for i, s in enumerate(sample):
+            tab, batch, pos, ph = enum[s - 1 if one_based else s]
+            want[s] = (f"{tab}-{batch}-{pos}", i, ph, tab, batch, pos)
+        rec.count("sample_numbers_mapped", len(sample))
+        want_ids = [w[0] for w in want.values()]
+        got_ids = [c[5] if vendor == "dominion" else c[4] for c in cards]
+        if sorted(got_ids) != sorted(want_ids):
+            # diagnose: off-by-one at a batch boundary / empty batch?
+            wrong = [(s, want[s][0]) for s in sample if want[s][0] not in got_ids]
+            at_boundary = all(want[s][5] in ((1, ) if one_based else (0, )) or
+                              want[s][5] == (dict(zip(labels + [("phantom", "1")], sizes + [bound - total]))[(want[s][3], want[s][4])] - (0 if one_based else 1))
+                              for s, _ in wrong) if wrong else False
+            rec.violation("c17.lookup", f"{vendor}:{'wrong_card_at_batch_boundary' if at_boundary else 'wrong_card'}",
+                          {"expected_not_returned": wrong[:5], "returned": got_ids[:12], "sizes": sizes, "bound": bound})
+            return False
+        if len(set(got_ids)) != len(got_ids):
+            rec.violation("c17.lookup", f"{vendor}:two_sample_numbers_one_card", {"ids": got_ids})
+            return False
+        sizes_by = dict(zip(labels + [("phantom", "1")], sizes + [bound - total]))
+        for c in cards:
+            tab, batch, pos = (c[2], c[3], c[4]) if vendor == "dominion" else (c[1], c[2], c[3])
+            n = sizes_by[(str(tab), str(batch))]
+            if not ((1 <= pos <= n) if one_based else (0 <= pos < n)):
+                rec.violation("c17.lookup", f"{vendor}:position_outside_batch", {"card": [str(v) for v in c], "batch_size": n})
+                return False
+        for s in sample:
+            cid, i, ph, *_ = want[s]
+            so = sample_order.get(cid)
+            if so is None or so.get("selection_order") != i:
+                rec.violation("c17.lookup", f"{vendor}:selection_order_wrong", {"card": cid, "got": so, "want": i})
+                return False
+        want_ph = sorted(w[0] for w in want.values() if w[2])
+        got_ph = sorted(m.id for m in mvr_ph)
+        rec.count("phantom_cards_sampled", len(want_ph))
+        if got_ph != want_ph or any((not m.phantom) or m.votes for m in mvr_ph):
+            rec.violation("c17.lookup", f"{vendor}:phantom_mvrs_wrong", {"got": got_ph, "want": want_ph})
+            return False
+        return True
+
+    if not lookup(sample):
         return
-    cards, sample_order, mvr_ph = res
-    rec.count(f"lookup_checked:{vendor}")
-    if 0 in sizes:
-        rec.count("lookups_with_empty_batches")
-    if bound > total:
-        rec.count("lookups_with_phantom_batch")
-    want = {}
-    for i, s in enumerate(sample):
-        tab, batch, pos, ph = enum[s - 1 if one_based else s]
-        want[s] = (f"{tab}-{batch}-{pos}", i, ph, tab, batch, pos)
-    rec.count("sample_numbers_mapped", len(sample))
-    want_ids = [w[0] for w in want.values()]
-    got_ids = [c[5] if vendor == "dominion" else c[4] for c in cards]
-    if sorted(got_ids) != sorted(want_ids):
-        # diagnose: off-by-one at a batch boundary / empty batch?
-        wrong = [(s, want[s][0]) for s in sample if want[s][0] not in got_ids]
-        at_boundary = all(want[s][5] in ((1, ) if one_based else (0, )) or
-                          want[s][5] == (dict(zip(labels + [("phantom", "1")], sizes + [bound - total]))[(want[s][3], want[s][4])] - (0 if one_based else 1))
-                          for s, _ in wrong) if wrong else False
-        rec.violation("c17.lookup", f"{vendor}:{'wrong_card_at_batch_boundary' if at_boundary else 'wrong_card'}",
-                      {"expected_not_returned": wrong[:5], "returned": got_ids[:12], "sizes": sizes, "bound": bound})
-        return
-    if len(set(got_ids)) != len(got_ids):
-        rec.violation("c17.lookup", f"{vendor}:two_sample_numbers_one_card", {"ids": got_ids})
-        return
-    sizes_by = dict(zip(labels + [("phantom", "1")], sizes + [bound - total]))
-    for c in cards:
-        tab, batch, pos = (c[2], c[3], c[4]) if vendor == "dominion" else (c[1], c[2], c[3])
-        n = sizes_by[(str(tab), str(batch))]
-        if not ((1 <= pos <= n) if one_based else (0 <= pos < n)):
-            rec.violation("c17.lookup", f"{vendor}:position_outside_batch", {"card": [str(v) for v in c], "batch_size": n})
+    # a later round looks up other numbers (and some of the same) in the SAME prepared manifest
+    sample2 = [s for s in reversed(sample) if rng.random() < 0.5] + [s for s in valid if s not in sample][:5]
+    if sample2:
+        rec.count("second_lookup_in_same_manifest")
+        if not lookup(sample2):
             return
-    for s in sample:
-        cid, i, ph, *_ = want[s]
-        so = sample_order.get(cid)
-        if so is None or so.get("selection_order") != i:
-            rec.violation("c17.lookup", f"{vendor}:selection_order_wrong", {"card": cid, "got": so, "want": i})
-            return
-    want_ph = sorted(w[0] for w in want.values() if w[2])
-    got_ph = sorted(m.id for m in mvr_ph)
-    rec.count("phantom_cards_sampled", len(want_ph))
-    if got_ph != want_ph or any((not m.phantom) or m.votes for m in mvr_ph):
-        rec.violation("c17.lookup", f"{vendor}:phantom_mvrs_wrong", {"got": got_ph, "want": want_ph})
-        return
 
     # ---- sample_from_cvrs -----------------------------------------------------------------------------------
     cvr_list = []
